@@ -318,6 +318,24 @@ ADD6 = {
 for _id, _t in ADD6.items():
     P[_id]["text"] += " " + _t
 
+ADD7 = {
+ "C01": "In a goroutine without a recover no interface or pointer loaded from a field that another function sets to nil is used without a test of the loaded value (clause of unrecovered-goroutine).",
+ "C02": "An admission counter taken before a goroutine is started is given back by a deferred call when that goroutine recovers from panics (rule admission-counter-released).",
+ "C03": "An entry kept in a map of the shared service object is not stored under a many-to-one function (case folding, trimming, sub-slice) of an input the stored value is computed from (rule shared-memo-key-exact).",
+ "C04": "In smtp a buffer that message content is accumulated into lives in the message object or is emptied wherever the message is replaced (rule message-state-per-message); the reporter-queue rule also covers ftp.",
+ "C07": "After a prefix of the batch was written without its final newline no further file write is reachable except through a rotation that succeeded (rule line-boundary-new-file).",
+ "C08": "The port-table construction rules of C19 (first-wins for compatible definitions, guarded sinks) are run for C08 as well.",
+ "C09": "The accept deadline of a per-connection listener is not conditional on a comma-ok assertion of a listener that may have been wrapped (clause of listener-accept-bounded).",
+ "C12": "A command log drained next to a termination arm is a rendezvous channel (shared with C04; rule reporter-handover-synchronous over services/ftp).",
+ "C13": "The callback that takes the digest and server name is stored into a tls.Config built in Handle for that connection (rule hello-callback-own-config).",
+ "C14": "A port decoder reports buff[:n] with n a (sum of) Read result(s), also through a helper (rule decoder-payload-read-count).",
+ "C16": "conn2.send is called only before the session's goroutines exist and from the one goroutine that drains the out channel (rule single-frame-writer).",
+ "C19": "The goroutines of the socket listener read no variable their starter overwrites (shared with C08/C03; rule goroutine-own-variables).",
+ "C20": "A slice filled by an inner loop and read after the enclosing loop is not started afresh inside the enclosing loop (rule address-list-complete).",
+}
+for _id, _t in ADD7.items():
+    P[_id]["text"] += " " + _t
+
 PENDING = {
 }
 
